@@ -65,3 +65,12 @@ extern "C" size_t vh_wrap_raw(const uint8_t *doc, size_t n, unsigned variant, ui
 #endif
 }
 
+
+extern "C" uint64_t vh_digest(const uint8_t *data, size_t n, int *nontrivial) {
+#ifdef VH_HAS_DIGEST
+    return digest_case(data, n, nontrivial);
+#else
+    (void)data; (void)n; *nontrivial = 0;
+    return 0;
+#endif
+}
